@@ -38,7 +38,7 @@ func init() {
 		"add": 6, "remove": 5, "addmany": 10, "addrange": 8, "removerange": 6, "flip": 5, "clear": 1,
 		"runopt": 4, "clone": 4, "detach": 1, "setcow": 3,
 		"binop": 6, "ibinop": 6, "card": 2, "flipstatic": 2, "addoffset": 2, "agg": 3, "andany": 1, "gc": 1,
-		"thresh": 4, "pair": 3, "cowclone": 2, "parlist": 0, "erode": 1, "zcpair": 0, "wide": 1, "tinysubset": 1, "gap": 3, "reuse": 0, "reuse64": 0, "capflip": 1,
+		"thresh": 4, "pair": 3, "cowclone": 2, "parlist": 0, "erode": 1, "zcpair": 0, "wide": 1, "tinysubset": 1, "gap": 3, "reuse": 0, "reuse64": 0, "capflip": 1, "par64": 0,
 	}
 	with := func(over map[string]int) *profile {
 		m := map[string]int{}
@@ -54,7 +54,7 @@ func init() {
 	for k, v := range io {
 		base[k] = v
 	}
-	for _, k := range []string{"add64", "remove64", "addmany64", "addrange64", "removerange64", "flip64", "maint64", "binop64", "flipstatic64", "agg64", "query64", "from32", "rt64", "trunc64", "corrupt64"} {
+	for _, k := range []string{"add64", "remove64", "addmany64", "addrange64", "removerange64", "flip64", "maint64", "binop64", "flipstatic64", "agg64", "query64", "from32", "rt64", "trunc64", "wfault64", "corrupt64"} {
 		base[k] = 0
 	}
 	for _, k := range []string{"bsinew64", "bsiset64", "bsifill64", "bsisetmany64", "bsiclear64", "bsiretain64", "bsiparor64", "bsiinc64", "bsiadd64", "bsicopy64", "bsiopt64", "bsicmp64", "bsicmpbsi64", "bsibatch64", "bsiminmax64", "bsisum64", "bsitrans64",
@@ -72,13 +72,13 @@ func init() {
 		}
 		return mkProfile(all)
 	}
-	profiles["C12"] = only(map[string]int{"parcmp": 40, "pooldecode": 12, "agg": 6, "agg64": 4, "addmany": 12, "addrange": 8, "runopt": 4, "removerange": 3, "flip": 3, "clone": 3, "setcow": 3, "addmany64": 6, "addrange64": 4, "binop": 3, "pair": 3, "gc": 1, "cowclone": 6, "add": 3, "remove": 2, "parlist": 8,
+	profiles["C12"] = only(map[string]int{"parcmp": 40, "pooldecode": 12, "agg": 6, "agg64": 4, "addmany": 12, "addrange": 8, "runopt": 4, "removerange": 3, "flip": 3, "clone": 3, "setcow": 3, "addmany64": 6, "addrange64": 4, "binop": 3, "pair": 3, "gc": 1, "cowclone": 6, "add": 3, "remove": 2, "parlist": 8, "par64": 8,
 		// the goroutine-parallel paths of both BSI implementations (races, deadlocks, leaks and panics in
 		// their goroutines are C12's; wrong answers are C19/C20's and counted as foreign here)
 		"bsinew64": 2, "bsifill64": 6, "bsiset64": 3, "bsiclear64": 3, "bsiparor64": 3, "bsicopy64": 3, "bsicmp64": 6, "bsibatch64": 3, "bsiminmax64": 3, "bsisum64": 3, "bsitrans64": 3,
 		"bsinew32": 2, "bsifill32": 6, "bsiset32": 3, "bsiclear32": 3, "bsiparor32": 3, "bsicopy32": 3, "bsicmp32": 6, "bsibatch32": 3, "bsiminmax32": 3, "bsisum32": 3, "bsitrans32": 3})
 	profiles["C17"] = only(map[string]int{"add64": 10, "remove64": 9, "addmany64": 10, "addrange64": 10, "removerange64": 10, "flip64": 8, "maint64": 8, "binop64": 16, "flipstatic64": 6, "agg64": 6, "query64": 8, "from32": 1, "addmany": 1, "gc": 1})
-	profiles["C18"] = only(map[string]int{"reuse64": 8, "add64": 6, "remove64": 4, "addmany64": 10, "addrange64": 8, "removerange64": 6, "flip64": 4, "maint64": 6, "binop64": 6, "rt64": 25, "trunc64": 6, "corrupt64": 20})
+	profiles["C18"] = only(map[string]int{"reuse64": 8, "add64": 6, "remove64": 4, "addmany64": 10, "addrange64": 8, "removerange64": 6, "flip64": 4, "maint64": 6, "binop64": 6, "rt64": 25, "trunc64": 6, "wfault64": 5, "corrupt64": 20})
 	profiles["C19"] = only(map[string]int{"bsinew64": 4, "bsiset64": 14, "bsifill64": 12, "bsisetmany64": 8, "bsiclear64": 6, "bsiretain64": 4, "bsiparor64": 8, "bsiinc64": 6, "bsiadd64": 6, "bsicopy64": 14, "bsiopt64": 2,
 		"bsinew32": 4, "bsiset32": 12, "bsifill32": 10, "bsisetmany32": 7, "bsiclear32": 6, "bsiparor32": 8, "bsiinc32": 6, "bsiadd32": 6, "bsicopy32": 10, "bsiopt32": 2, "bsicmp64": 2, "bsicmp32": 2, "bsisum64": 1, "bsisum32": 1})
 	profiles["C20"] = only(map[string]int{"bsinew64": 3, "bsiset64": 8, "bsifill64": 12, "bsisetmany64": 6, "bsiclear64": 2, "bsiparor64": 1, "bsiinc64": 2, "bsicopy64": 2, "bsiopt64": 2,
